@@ -12,7 +12,10 @@ for d in sorted(glob.glob(os.path.join(os.path.dirname(os.path.dirname(os.path.a
     res = "; ".join("%s %s%s" % (r["check"], "caught" if r["caught"] else "not caught (property unaffected or out of scope of that check)",
                                  (" [" + r["clause"] + "]") if r.get("clause") else "") for r in m["results"])
     note = ""
-    if m.get("first_run"):
+    if m.get("first_run") == "NOT CAUGHT":
+        res = res.replace("not caught (property unaffected or out of scope of that check)", "NOT CAUGHT")
+        note = " -- " + m["strengthening"]
+    elif m.get("first_run"):
         note = " FIRST RUN MISSED -> " + m["strengthening"]
     need = m["needs_to_manifest"].replace("|", "/").replace("\n", " ")
     rows.append("| %s | %s | %s%s |" % (m["seed"], need[:260], res, note))
